@@ -837,7 +837,7 @@ def asked_again_case(idx, first, first_nl, second, second_nl):
     return []
 
 
-def appended_input_case(idx, first, second):
+def appended_input_case(idx, first, second, clear_first=False):
     """ONE I/O: a first question reads all of `first` (its last line is a valid answer), more input is appended to the same
     input stream, a second question of the same kind reads it: it sees exactly the appended lines"""
     from clikit.io import BufferedIO
@@ -849,6 +849,8 @@ def appended_input_case(idx, first, second):
         build().ask(io)
         io.fetch_error()
         io.clear_error()
+        if clear_first:
+            io.clear_input()  # what was typed so far is dropped; the appended lines are all there is
         io.append_input(script_text(list(second), True))
         q2 = build()
         try:
@@ -899,9 +901,11 @@ def _bounded_asked_again(ctx, rec):
                 continue  # a confirmation reads one line whatever it says
             for second in AGAIN_SECOND:
                 ctx.case([builders[i][0], "appended", list(first), list(second)])
-                for sig, what in appended_input_case(i, first, second):
-                    rec.fail(sig, what, {"check": "appended_input", "builder": i, "label": builders[i][0], "first": list(first),
-                                         "second": list(second)})
+                for clr in (False, True):
+                    for sig, what in appended_input_case(i, first, second, clr):
+                        rec.fail(sig + ("|after-clear_input" if clr else ""), what,
+                                 {"check": "appended_input", "builder": i, "label": builders[i][0], "first": list(first),
+                                  "second": list(second), "clear": clr})
     ctx.done(exhaustive=True, note=rec.note())
 
 
@@ -931,7 +935,8 @@ def replay_bounded(check_id, failure):
         elif kind == "non_interactive":
             fails = non_interactive_case(w["builder"], w["input"])
         elif kind == "appended_input":
-            fails = appended_input_case(w["builder"], tuple(w["first"]), tuple(w["second"]))
+            fails = [(f[0] + ("|after-clear_input" if w.get("clear") else ""), f[1])
+                     for f in appended_input_case(w["builder"], tuple(w["first"]), tuple(w["second"]), bool(w.get("clear")))]
         elif kind == "asked_again":
             fails = asked_again_case(w["builder"], tuple(w["first"]), w["nl"], tuple(w["second"]), w["nl"])
         else:
